@@ -36,6 +36,7 @@ INF = float("inf")
 PS = [1, 2, INF]
 
 OBLIGATIONS = {
+    "long_pair": "a pair whose distance table has more than 128 cells (12 x 11, 7 x 19, 16 x 16, 3 x 50) was matched",
     "exponent_as_numpy_scalar": "p = 1 and p = 2 were also passed as numpy.int64 and numpy.float64",
     "rematch_of_a_matching": "a returned matching (track 1 with its match features) was matched again as first track",
     "tie_u_eq_l_lt_ul": "a DP cell with up == left < diagonal was reached (the tie named in DESIGN)",
@@ -90,7 +91,9 @@ def _pairs_total(name, variant):
 
 def bounds(tier, variant):
     b = {"p": ["1", "2", "inf"], "modes": ["DTW", "FDTW", "FRECHET (p=inf)", "compare FRECHET (p=inf)"],
-         "argument_orders": "both", "spaces": []}
+         "argument_orders": "both", "spaces": [],
+         "long_pairs": {"sizes": LONG_SIZES[tier], "walks_stride_offset": LONG_SHAPES,
+                        "oracle": "dynamic-programming recurrence on the harness's own weights (couplings are too many to list)"}}
     for name in _spaces(tier):
         dim, trs = _tracks(name, variant)
         rec = {"name": name, "dim": dim, "tracks": len(trs), "unordered_pairs": _pairs_total(name, variant)}
@@ -176,6 +179,23 @@ def path_cost(W, path, p):
 
 
 def optimum(W, n2, n1, p):
+    if n2 * n1 > 20:
+        # too many couplings to list (a 12 x 11 table has ~1e8): the optimum by the textbook recurrence over the harness's
+        # own weights, best(i, j) = w(i, j) (+) min(best(i-1, j-1), best(i-1, j), best(i, j-1)); the number of optimal
+        # couplings (used for an obligation only) by counting the predecessors that attain the minimum
+        acc = (lambda a, b: max(a, b)) if p == INF else (lambda a, b: a + b)
+        T = [[None] * n1 for _ in range(n2)]
+        C = [[0] * n1 for _ in range(n2)]
+        for i in range(n2):
+            for j in range(n1):
+                if i == 0 and j == 0:
+                    T[i][j], C[i][j] = W[0][0], 1
+                    continue
+                pred = [(T[a][b], C[a][b]) for a, b in ((i - 1, j - 1), (i - 1, j), (i, j - 1)) if a >= 0 and b >= 0]
+                m = min(t for t, _ in pred)
+                T[i][j] = acc(m, W[i][j])
+                C[i][j] = sum(c for t, c in pred if t <= m + 1e-12 * max(1.0, abs(m)))
+        return T[n2 - 1][n1 - 1], C[n2 - 1][n1 - 1]
     costs = [path_cost(W, c, p) for c in couplings(n2, n1)]
     best = min(costs)
     nbest = sum(1 for c in costs if c <= best + 1e-12 * max(1.0, abs(best)))
@@ -369,6 +389,24 @@ def check_pair(variant, A, B, p, dim, ctx):
     return tie or other
 
 
+# ---- long pairs: distance tables of more than 2^7 / 2^8 cells (index arithmetic, back-pointer storage, band of FDTW) ----
+LONG_SIZES = {"quick": [(12, 11), (7, 19), (16, 16), (3, 50)], "thorough": [(12, 11), (7, 19), (16, 16), (3, 50), (40, 33), (2, 300)]}
+LONG_SHAPES = [(1, 0), (2, 1), (5, 3)]           # (stride, offset) of the cycle through the 3x2 lattice
+
+
+def long_walk(variant, n, stride, off):
+    pts = alpha.order(variant, _space("3x2")[1])
+    return [pts[(off + k * stride) % len(pts)] for k in range(n)]
+
+
+def check_long(variant, nA, nB, p, ctx):
+    for sa in LONG_SHAPES:
+        for sb in LONG_SHAPES:
+            A, B = long_walk(variant, nA, *sa), long_walk(variant, nB, *sb)
+            ctx.oblige("long_pair")
+            ctx.case(check_pair(variant, A, B, p, 2, ctx))
+
+
 def replay(case, ctx):
     check_pair(case["variant"], case["A"], case["B"], case["p"], case["dim"], ctx)
 
@@ -395,7 +433,10 @@ def plan(tier, variant):
         for pi in range(len(PS)):
             for lo in range(0, total, CHUNK[tier]):
                 sh.append({"variant": variant, "space": name, "p": pi, "lo": lo, "hi": min(total, lo + CHUNK[tier])})
-    order = {"axis": 0, "xz": 1, "3x2": 2, "2x2small": 3, "2x2": 4}
+    for nA, nB in LONG_SIZES[tier]:
+        for pi in range(len(PS)):
+            sh.append({"variant": variant, "space": "long", "sizes": [nA, nB], "p": pi, "lo": 0})
+    order = {"long": -1, "axis": 0, "xz": 1, "3x2": 2, "2x2small": 3, "2x2": 4}
     sh.sort(key=lambda s: (order[s["space"]], s["lo"], s["p"]))
     return sh
 
@@ -403,6 +444,10 @@ def plan(tier, variant):
 def run_shard(shard, ctx):
     v, name = shard["variant"], shard["space"]
     p = PS[shard["p"]]
+    if name == "long":
+        check_long(v, shard["sizes"][0], shard["sizes"][1], p, ctx)
+        ctx.sample({"long_pair_sizes": shard["sizes"], "p": p, "walks": LONG_SHAPES})
+        return
     dim = _tracks(name, v)[0]
     it = itertools.islice(_pair_iter(name, v), shard["lo"], shard["hi"])
     for k, (A, B) in enumerate(it):
